@@ -156,3 +156,7 @@ Definition check_flush (c : proc * list (evclass * bytes) * (Z * bool * bool * Z
 Definition check_pipe (c : list piop * bytes * bytes) : bool :=
   let '(l, got, buf) := c in
   let p := pi_run l in zlist_eqb (pi_got p) got && zlist_eqb (pi_buf p) buf.
+
+(* decode_wait_status(sts)[0] and `es in exitcodes` *)
+Definition check_wait (c : Z * list Z * Z * bool) : bool :=
+  let '(sts, codes, es, ee) := c in (wait_exit_status sts =? es) && Bool.eqb (exit_expected sts codes) ee.
